@@ -7,7 +7,7 @@ META = {
     "explanation": "under the unit abstraction 5.1: Reaction.check_consistent_units accepts a unit-carrying constant iff its dimension is concentration^(1-order)/time for orders 0..3 and any time/concentration units (generic scales), and rejects each one-off dimension; Equilibrium.check_consistent_units never accepts a constant of another dimension than concentration^(products-reactants); the args_dimensionality of MassAction/Arrhenius/Eyring/EyringHS/Radiolytic/RampedTemp/SinTemp equal the dimension algebra of their formulas for EVERY reaction order (symbolic order); Expr.dedimensionalisation returns per argument the registry unit and the magnitude with phys(arg) = magnitude * phys(unit), recursively for nested expressions, defaults converted likewise; hence the dedimensionalised mass-action rate times the registry's rate unit equals the physical rate for any registry (orders 0-3)",
     "trusted_base": ["assumed contract 5.1 (pyvc/qmodel.py)", "contracts assumed at call sites for default_unit_in_registry / unitless_in_registry (they walk quantities internals; bounded stand-in): unit = product of registry units to the argument's SI exponents"],
     "not_decided": ["get_odesys's to_arrays/post-processing callbacks end to end and the alternative builder's validation (pyodesys in the loop): bounded metamorphic stand-in over three registries; in the contract tier only hand-computed data cases (t != 0, temperature units, output rescaling, Radiolytic keys, validate)",
-                    "acceptance by Equilibrium.check_consistent_units of exact spellings of 1 M other than `molar` with real (float) quantities: the iff is a statement in the exact reals of 5.1; mol/dm3 is refused on the pinned tree"],
+                    "WHICH constants of the right dimension Equilibrium.check_consistent_units accepts besides molar**exponent itself (the property fixes only 'accepted => right dimension'; the pinned tree refuses mM and, comparing float scales, even mol/dm3)"],
     "assumptions": [],
 }
 CH = "chempy.chemistry"
@@ -46,11 +46,12 @@ def _rcu(order):
         ku = t.generic("ku", _rate_dim(order, off))       # a unit of (possibly wrong) dimension and arbitrary scale
         rxn = Reaction(_reac(order), {"P": 1}, m * ku, checks=())
         ok = v.call(rxn.check_consistent_units)
-        v.prove("accepted_iff_dimension_is_conc_pow_1_minus_order_per_time", ok is (off is None))
+        # the verdict by its truth value (a numpy bool or 1/0 is the same verdict), not by identity with True / False
+        v.prove("accepted_iff_dimension_is_conc_pow_1_minus_order_per_time", SP.iff(ok, off is None))
         out = v.run(rxn.check_consistent_units, throw=True)
         v.prove("throw_mode", out.returned if off is None else out.raised(Exception))
         plain = Reaction(_reac(order), {"P": 1}, m, checks=())
-        v.prove("plain_numbers_are_not_checked", v.call(plain.check_consistent_units) is True)
+        v.prove("plain_numbers_are_not_checked", bool(v.call(plain.check_consistent_units)) is True)
     return _
 
 
@@ -94,16 +95,17 @@ def _ecu(nreac, nprod):
         ku = t.generic("ku", tuple(d))
         eq = Equilibrium({"A": nreac}, {"B": nprod}, m * ku, checks=())
         ok = v.call(eq.check_consistent_units)
+        # (i) of the property's equilibrium clause, for a unit of ANY scale (ku is generic): accepted => the dimension is concentration**expo.
+        # The obligation keeps its old NAME (the baseline refers to it) but no longer its old condition "accepted <=> the scale is that of
+        # molar**expo": which right-dimension constants are accepted is not fixed by the property (chempy today refuses every scale but molar's,
+        # and -- comparing float scales -- even some exact spellings of 1 M such as mol/dm3: second review, finding 3); a chempy that starts
+        # accepting mol/dm3, or mM, still satisfies C10.  (ii) "molar**expo itself IS accepted" is molar_units_accepted below: it keeps (i)
+        # from being earned by refusing every quantity.
+        v.prove("right_dimension_accepted_iff_molar_scale", SP.implies(ok, off is None))
         if off is not None:
             v.prove("wrong_dimension_never_accepted", ok is False or ok == False)   # noqa
             # throw=True must refuse by raising; WHICH exception is not part of the property (Reaction's twin accepts any, too)
             v.prove("wrong_dimension_throws", v.run(eq.check_consistent_units, throw=True).raised(Exception))
-        else:
-            # right dimension: accepted exactly when the scale is that of molar**expo (stricter than the property, which only has the "accepted =>
-            # right dimension" half). NB this is a statement in the EXACT reals of abstraction 5.1: the real package compares float scales, and
-            # its "if" half is false there for some exact spellings of 1 M (3*u.mol/u.dm3 -> 999.9999999999998 mol/m**3, refused; reported to the
-            # maintainer by the second review, finding 3). What holds with real quantities is stated in Equilibrium.real_quantities below.
-            v.prove("right_dimension_accepted_iff_molar_scale", SP.iff(ok, t.scale["ku"] == 1000 ** expo if expo >= 0 else t.scale["ku"] * 1000 ** (-expo) == 1))
         # for expo == 0 the constant must still be a QUANTITY (dimensionless), not a plain number: a plain number is accepted by the
         # "user is not using units" branch whatever the check does
         molar = Equilibrium({"A": nreac}, {"B": nprod}, m * u.molar ** expo if expo else Quantity(m, {}, t), checks=())
@@ -181,11 +183,21 @@ def _(v):
 
 @harness("C10", "Radiolytic.args_dimensionality", functions=["chempy.kinetics.rates:mk_Radiolytic.<locals>._Radiolytic.args_dimensionality"], kind="data")
 def _(v):
-    from chempy.kinetics.rates import Radiolytic, mk_Radiolytic
-    d = Radiolytic([1.0]).args_dimensionality(None)
-    v.prove("amount_per_energy", len(d) == 1 and {k: x for k, x in d[0].items() if x} == {"amount": 1, "mass": -1, "length": -2, "time": 2})
-    d2 = mk_Radiolytic("a", "b")([1.0, 2.0]).args_dimensionality(None)
-    v.prove("one_per_doserate", len(d2) == 2 and d2[0] == d2[1])
+    nz = lambda d: {k: x for k, x in dict(d).items() if x}       # a base dimension left out and one listed with exponent 0 are the same dimension
+    try:
+        from chempy.kinetics.rates import Radiolytic
+        d = list(Radiolytic([1.0]).args_dimensionality(None))
+        ok, det = len(d) == 1 and nz(d[0]) == {"amount": 1, "mass": -1, "length": -2, "time": 2}, repr(d)
+    except Exception as ex:
+        ok, det = False, repr(ex)[:200]
+    v.prove("amount_per_energy", ok, detail=det)
+    try:
+        from chempy.kinetics.rates import mk_Radiolytic
+        d2 = list(mk_Radiolytic("a", "b")([1.0, 2.0]).args_dimensionality(None))
+        ok, det = len(d2) == 2 and nz(d2[0]) == nz(d2[1]), repr(d2)
+    except Exception as ex:
+        ok, det = False, repr(ex)[:200]
+    v.prove("one_per_doserate", ok, detail=det)
 
 
 def _si(q):
@@ -231,7 +243,8 @@ def _dedim(order):
         units, inst = v.call(ma.dedimensionalisation, reg)
         (inner_units,) = units
         arr = inst.args[0]
-        v.prove("structure_kept", type(inst) is MassAction and type(arr) is Arrhenius and len(arr.args) == 2 and len(inner_units) == 2)
+        # 'the same kind of expression' = an instance of the class (a subclass included), not the identical type object
+        v.prove("structure_kept", isinstance(inst, MassAction) and isinstance(arr, Arrhenius) and len(arr.args) == 2 and len(inner_units) == 2)
         v.prove("units_have_argument_dimensions", dim_of(inner_units[0]) == _rate_dim(order) and dim_of(inner_units[1]) == (0, 0, 0, 0, 1, 0, 0))
         v.prove_identity("rate_constant_physical_value_preserved", arr.args[0] * si_value(inner_units[0]), si_value(A * ku))
         v.prove_identity("activation_temperature_physical_value_preserved", arr.args[1] * si_value(inner_units[1]), si_value(EaR * Tu))
@@ -239,7 +252,7 @@ def _dedim(order):
         cu = t.generic("cu", CONC)
         plain = MassAction([A * ku], unique_keys=("kk",))
         u2, i2 = v.call(plain.dedimensionalisation, reg)
-        v.prove("unique_keys_kept", i2.unique_keys == ("kk",))
+        v.prove("unique_keys_kept", tuple(i2.unique_keys) == ("kk",))       # the keys, whether kept in a tuple or a list
         v.prove_identity("flat_argument", i2.args[0] * si_value(u2[0]), si_value(A * ku))
         # registry independence of the mass-action rate (orders 0..3): dedim rate * registry rate unit == physical rate
         concs = {k: v.real("c" + k, lo=0, hi=10) for k in ("A", "B")}
@@ -277,8 +290,9 @@ def _(v):
     from chempy.units import SI_base_registry, default_units as u, to_unitless
     warnings.simplefilter("ignore")
     k1, k2, k3 = 3.0 / u.mM / u.minute, 0.5 / u.hour, 7.0 * u.uM / u.s
-    rsys = ReactionSystem([Reaction({"A": 2}, {"B": 1}, MassAction([k1], unique_keys=["k1"])), Reaction({"B": 1}, {"A": 2}, MassAction([k2], unique_keys=["k2"])),
-                           Reaction({}, {"C": 1}, MassAction([k3], unique_keys=["k3"]), checks=())], "A B C")
+    # (a factory: building the system runs chempy's constructors and their checks -- an exception there is a failed obligation, not a crash of the harness)
+    mk_rsys = lambda: ReactionSystem([Reaction({"A": 2}, {"B": 1}, MassAction([k1], unique_keys=["k1"])), Reaction({"B": 1}, {"A": 2}, MassAction([k2], unique_keys=["k2"])),
+                                      Reaction({}, {"C": 1}, MassAction([k3], unique_keys=["k3"]), checks=())], "A B C")
     c0 = {"A": 2 * u.mM, "B": 1 * u.uM, "C": 0 * u.M}
     _k1, _k2, _k3, _A, _B = 3e3 / 60, 0.5 / 3600, 7e-6, 2e-3, 1e-6
     ref = [-2 * _k1 * _A ** 2 + 2 * _k2 * _B, _k1 * _A ** 2 - _k2 * _B, _k3]
@@ -287,7 +301,7 @@ def _(v):
     bad = []
     for name, reg in regs.items():
         try:
-            odesys, extra = get_odesys(rsys, include_params=False, unit_registry=reg)
+            odesys, extra = get_odesys(mk_rsys(), include_params=False, unit_registry=reg)
             conc, tm = reg["amount"] / reg["length"] ** 3, reg["time"]
             pu = dict(zip(odesys.param_names, extra["p_units"]))
             x, y, p = odesys.to_arrays(0 * u.s, c0, {"k1": k1, "k2": k2, "k3": k3})
@@ -306,7 +320,6 @@ def _(v):
     try:
         reg = dict(SI_base_registry)
         ma = MassAction([k1])
-        rxn = rsys.rxns[0]
         (u1,), inst1 = ma.dedimensionalisation(reg)
         reg["length"], reg["time"] = u.decimetre, u.minute
         (u2,), inst2 = ma.dedimensionalisation(reg)
@@ -373,7 +386,13 @@ def _(v):
 def _(v):
     """what the alternative builder's unit-aware solve hands to the integrator: time, concentrations and parameters given in ANY compatible units
     become numbers in registry units with the same physical value, and the units reported for them are the registry's units of their dimension"""
-    from chempy.kinetics.ode import _mk_dedim
+    try:
+        from chempy.kinetics.ode import _mk_dedim
+    except ImportError:
+        # a private helper (the repository's own tests import it by this name, so a rename is not expected): without it this modular proof aid
+        # has nothing to stand on -- undecided, never a violation; the clause stays with the bounded stand-in of the alternative builder
+        from pyvc.sym import Unsupported
+        raise Unsupported("chempy.kinetics.ode._mk_dedim (private helper of the alternative builder's unit-aware solve) is gone or renamed: its dedimensionalisation is not decided by this harness")
     from chempy import units as CU
     from pyvc.qmodel import si_value, dim_of, std_table, Quantity
     t = std_table()
@@ -413,7 +432,8 @@ def _(v):
     regs = {"SI": dict(SI_base_registry), "dm_min_umol": dict(SI_base_registry, length=u.decimetre, time=u.minute, amount=u.micromole), "cm_h": dict(SI_base_registry, length=u.centimetre, time=u.hour),
             "scaled_base_units": dict(SI_base_registry, length=0.1 * u.metre, time=60 * u.second)}
     k1, k2 = 3.0 / u.mM / u.minute, 0.5 / u.hour
-    rsys = ReactionSystem([Reaction({"A": 2}, {"B": 1}, MassAction([k1], unique_keys=["k1"])), Reaction({"B": 1}, {"A": 2}, MassAction([k2], unique_keys=["k2"]))], "A B")
+    # (factories: building a system runs chempy's constructors and their checks -- an exception there is a failed obligation, not a crash of the harness)
+    mk_rsys = lambda: ReactionSystem([Reaction({"A": 2}, {"B": 1}, MassAction([k1], unique_keys=["k1"])), Reaction({"B": 1}, {"A": 2}, MassAction([k2], unique_keys=["k2"]))], "A B")
     c0 = {"A": 2 * u.mM, "B": 1 * u.uM}
     accepted, converted = [], []
     # hand conversion of k1 = 3/(mM min) and k2 = 0.5/h into each registry's units:
@@ -422,7 +442,7 @@ def _(v):
     hand_p = {"SI": (0.05, 0.5 / 3600), "dm_min_umol": (3e-3, 0.5 / 60), "cm_h": (1.8e8, 0.5), "scaled_base_units": (3e3, 0.5 / 60)}
     for name, reg in regs.items():
         try:
-            odesys, extra = get_odesys(rsys, include_params=False, unit_registry=reg)
+            odesys, extra = get_odesys(mk_rsys(), include_params=False, unit_registry=reg)
         except Exception as ex:
             accepted.append((name, "get_odesys", repr(ex)[:120])); converted.append((name, "get_odesys", repr(ex)[:120]))
             continue
@@ -445,14 +465,15 @@ def _(v):
     # one NAMED constant used by two reactions that need different dimensions (first and second order) has no dimension that suits both:
     # refused when the system is built or when the value is handed in, never accepted for one of the two (rates would depend on the registry);
     # the same name at the same order is legal
-    shared = ReactionSystem([Reaction({"A": 1}, {"B": 1}, "k"), Reaction({"A": 1, "B": 1}, {"C": 1}, "k")], "A B C")
-    same_order = ReactionSystem([Reaction({"A": 1}, {"B": 1}, "k"), Reaction({"B": 1}, {"C": 1}, "k")], "A B C")
+    # (refusing the shared name already when the ReactionSystem is constructed is a refusal 'when the system is built', too)
+    shared = lambda: ReactionSystem([Reaction({"A": 1}, {"B": 1}, "k"), Reaction({"A": 1, "B": 1}, {"C": 1}, "k")], "A B C")
+    same_order = lambda: ReactionSystem([Reaction({"A": 1}, {"B": 1}, "k"), Reaction({"B": 1}, {"C": 1}, "k")], "A B C")
     c3 = {"A": 1 * u.molar, "B": 2 * u.molar, "C": 0 * u.molar}
     took = []
     for name, reg in regs.items():
         for kval in (3 / u.molar / u.s, 3 / u.s):
             try:
-                o, _e = get_odesys(shared, unit_registry=reg, include_params=False)
+                o, _e = get_odesys(shared(), unit_registry=reg, include_params=False)
                 o.to_arrays(0 * u.s, c3, {"k": kval})
                 took.append((name, str(kval)))
             except Exception:
@@ -461,7 +482,7 @@ def _(v):
     okk = []
     for name, reg in regs.items():
         try:
-            o, _e = get_odesys(same_order, unit_registry=reg, include_params=False)
+            o, _e = get_odesys(same_order(), unit_registry=reg, include_params=False)
             x, y, p = o.to_arrays(0 * u.s, c3, {"k": 3 / u.minute})
             f = np.asarray(o.f_cb(np.ravel(x)[0], np.ravel(y), np.ravel(p)), dtype=float).ravel()
             unit = reg["amount"] / reg["length"] ** 3 / reg["time"]
@@ -483,17 +504,17 @@ def _(v):
     bad = []
     for mode in ("keys_only.substituted", "keys_only.run_time", "explicit"):
         rx = (lambda i: MassAction(Eyring([eyr["a%d" % i], eyr["b%d" % i]]))) if mode == "explicit" else (lambda i: MassAction(Eyring.fk("a%d" % i, "b%d" % i)))
-        sys_e = ReactionSystem([Reaction({"A": 1}, {"B": 1}, rx(1)), Reaction({"A": 1, "B": 1}, {"C": 1}, rx(2)), Reaction({"C": 2, "A": 1}, {"D": 1}, rx(3))], "A B C D")
+        sys_e = lambda: ReactionSystem([Reaction({"A": 1}, {"B": 1}, rx(1)), Reaction({"A": 1, "B": 1}, {"C": 1}, rx(2)), Reaction({"C": 2, "A": 1}, {"D": 1}, rx(3))], "A B C D")
         for name, reg in regs.items():
             try:
                 if mode == "keys_only.substituted":
-                    odesys, extra = get_odesys(sys_e, unit_registry=reg, substitutions=eyr)
+                    odesys, extra = get_odesys(sys_e(), unit_registry=reg, substitutions=eyr)
                     params = {"temperature": T}
                 elif mode == "keys_only.run_time":
-                    odesys, extra = get_odesys(sys_e, unit_registry=reg, include_params=False)
+                    odesys, extra = get_odesys(sys_e(), unit_registry=reg, include_params=False)
                     params = dict(eyr, temperature=T)
                 else:
-                    odesys, extra = get_odesys(sys_e, unit_registry=reg)
+                    odesys, extra = get_odesys(sys_e(), unit_registry=reg)
                     params = {"temperature": T}
                 x, y, p = odesys.to_arrays(0 * u.s, c0, params)
                 f = np.asarray(odesys.f_cb(np.ravel(x)[0], np.ravel(y), np.ravel(p)), dtype=float).ravel()
@@ -568,10 +589,12 @@ def _(v):
 @harness("C10", "Equilibrium.real_quantities", functions=[CH + ":Equilibrium.check_consistent_units", CH + ":Reaction.__init__", "chempy.units:unit_of"], kind="data")
 def _(v):
     """'an equilibrium never accepts a constant whose dimension differs from concentration^(products-reactants)' on the real quantities package
-    (which compares float scales; the symbolic harnesses use exact scales): wrong dimensions are refused by the check and by the constructor; a
-    constant of the right dimension that is accepted has the scale of molar**exponent (3 mM read as 3 would be off by 1000**exponent; for exponent
-    0 a percentage is not a pure number); molar**exponent itself -- a dimensionless QUANTITY for exponent 0 -- is accepted.
-    NOT stated (false on the pinned tree, second review finding 3): acceptance of other exact spellings of 1 M such as mol/dm3."""
+    (which compares float scales; the symbolic harnesses use exact scales): wrong dimensions are refused by the check and by the constructor;
+    molar**exponent itself -- a dimensionless QUANTITY for exponent 0 -- is accepted.
+    NOT stated, because the property does not fix it: WHICH other constants of the right dimension are accepted (the pinned tree refuses mM,
+    mol/m3, percent ... and even exact spellings of 1 M such as mol/dm3, second review finding 3; a chempy that accepts them, as Reaction does
+    for rate constants, still satisfies C10).  What is stated for them is only that 'accepts' is ONE verdict: check_consistent_units(),
+    check_consistent_units(throw=True) and the constructor with its default checks agree on each of them."""
     import quantities as pq
     from chempy.chemistry import Equilibrium
     from chempy.units import default_units as u
@@ -585,11 +608,26 @@ def _(v):
             return bool(Equilibrium(r, p, q, checks=()).check_consistent_units(**kw))
         except Exception as ex:
             return ex
+
+    def verdicts(expo, q):
+        """[check(), check(throw=True), constructor]: True = accepted, False = refused (throw mode / constructor: by raising), else what went wrong"""
+        r, p = stoich[expo]
+        out = [check(expo, q)]
+        thrown = check(expo, q, throw=True)
+        out.append(False if isinstance(thrown, Exception) else True if thrown is True else "throw=True returned %r" % (thrown,))
+        try:
+            Equilibrium(r, p, q); out.append(True)
+        except Exception:
+            out.append(False)
+        return out
     wrong_scale, no_molar, wrong_dim = [], [], []
     for expo in stoich:
-        for name, unit, scale in conc_units:
-            if expo and check(expo, 3.0 * unit ** expo) is True and abs(scale / 1e3 - 1) > 1e-9:
-                wrong_scale.append((expo, name))
+        # (name kept: accepted_only_at_the_scale_of_molar used to demand REFUSAL of every right-dimension constant whose scale is not molar's --
+        # more than the property states, see the docstring)
+        for name, unit, _scale in (conc_units + (("mol/dm3", u.mol / u.dm3, 1e3),) if expo else ()):
+            got = verdicts(expo, 3.0 * unit ** expo)
+            if got not in ([True, True, True], [False, False, False]):
+                wrong_scale.append((expo, name, repr(got)[:120]))
         got = check(expo, 3.0 * u.molar ** expo if expo else 3.0 * u.dimensionless)
         if got is not True:
             no_molar.append((expo, repr(got)[:100]))
@@ -598,9 +636,10 @@ def _(v):
                         ("time", 3.0 * u.s)):
             if check(expo, q) is not False or not isinstance(check(expo, q, throw=True), Exception):
                 wrong_dim.append((expo, name))
-    if check(0, 3.0 * pq.percent) is True:
-        wrong_scale.append((0, "percent"))
-    v.prove("accepted_only_at_the_scale_of_molar", not wrong_scale, detail=repr(wrong_scale))
+    got = verdicts(0, 3.0 * pq.percent)
+    if got not in ([True, True, True], [False, False, False]):
+        wrong_scale.append((0, "percent", repr(got)[:120]))
+    v.prove("accepted_only_at_the_scale_of_molar", not wrong_scale, detail=repr(wrong_scale[:4]))
     v.prove("molar_to_the_exponent_accepted", not no_molar, detail=repr(no_molar))
     v.prove("wrong_dimension_refused", not wrong_dim, detail=repr(wrong_dim[:6]))
     ctor = []
